@@ -229,9 +229,16 @@ func (s *Server) followCheckSome(addr string, followc int, auth string,
 
 	// we want to truncate at a command location
 	// search for nearest command
-	pos, err = getEndOfLastValuePositionInFile(s.aof.Name(), fullpos)
-	if err != nil {
-		return 0, err
+	if fullpos == int64(s.aofsz) {
+		// All of our log matches, and its end is a command boundary. The
+		// backward search below looks for a `*` that starts a command and
+		// can be misled by one inside the value of the last command.
+		pos = fullpos
+	} else {
+		pos, err = getEndOfLastValuePositionInFile(s.aof.Name(), fullpos)
+		if err != nil {
+			return 0, err
+		}
 	}
 	if pos == fullpos {
 		if s.opts.ShowDebugMessages {
